@@ -66,10 +66,10 @@ func runC18Enrich(c *fw.Ctx, id string) {
 			if k == 1 {
 				return namesFor(addr), nil, time.Millisecond
 			}
-			return nil, errResolver, 300 * time.Millisecond
+			return nil, resolverFailure(len(addr)+k, addr), 300 * time.Millisecond
 		case rdFlakyKO:
 			if k == 1 {
-				return nil, errResolver, time.Millisecond
+				return nil, resolverFailure(len(addr), addr), time.Millisecond
 			}
 			return namesFor(addr), nil, 300 * time.Millisecond
 		case rdNames:
@@ -77,7 +77,7 @@ func runC18Enrich(c *fw.Ctx, id string) {
 		case rdEmpty:
 			return []string{}, nil, delay[addr] / 100
 		case rdError:
-			return nil, errResolver, delay[addr] / 100
+			return nil, resolverFailure(int(delay[addr]/time.Millisecond), addr), delay[addr] / 100
 		case rdSlow:
 			return namesFor(addr), nil, delay[addr] + time.Second
 		}
@@ -225,7 +225,7 @@ func runC18RdnsCache(c *fw.Ctx, id string) {
 	rs := installResolver(func(addr string) ([]string, error, time.Duration) {
 		queries[addr]++
 		if fail[addr] {
-			return nil, errResolver, 0
+			return nil, resolverFailure(queries[addr]+len(addr), addr), 0
 		}
 		gen[addr]++
 		return []string{fmt.Sprintf("gen%d.%s.example.", gen[addr], addr)}, nil, 0
@@ -276,7 +276,7 @@ func runC18RdnsCache(c *fw.Ctx, id string) {
 				c.Nontrivial("rdns-cache/expired-miss")
 			}
 			if fail[a] {
-				if err == nil {
+				if err == nil && len(names) > 0 {
 					c.Violate("C18", "failure-served", fmt.Sprintf("%s: resolver failed for %s but a value %v was returned", id, a, names), trace)
 				}
 				delete(ref, a) // an expired entry stays expired; nothing new is stored
@@ -498,6 +498,14 @@ func (s *scriptedRT) RoundTrip(req *http.Request) (*http.Response, error) {
 		return mk(200, st.ip)
 	case "valid-ws":
 		return mk(200, "  "+st.ip+"\n\n")
+	case "valid-ws-long":
+		// the whole body, trimmed, is the address: leading/trailing white space of any (moderate) length
+		return mk(200, "\r\n   \t "+st.ip+strings.Repeat(" ", 37)+"\n")
+	case "garbage-ip-prefix":
+		// starts like an address, padded, then continues: the body as a whole is not an address
+		return mk(200, "192.0.2.99"+strings.Repeat(" ", 30)+"<html>captive portal</html>")
+	case "garbage-long":
+		return mk(200, strings.Repeat("<p>not an address</p>", 300))
 	case "garbage":
 		return mk(200, "<html>not an address</html>")
 	case "s4xx":
@@ -520,10 +528,17 @@ func runC18PublicIP(c *fw.Ctx, id string) {
 	}
 	var plans []plan
 	for i, h := range providerHosts {
-		p := plan{errsBefore: []int{0, 0, 1, 1, 7}[r.Intn(5)], terminal: []string{"valid4", "valid6", "valid-ws", "garbage", "s4xx", "s5xx-garbage", "transport"}[r.Intn(7)]}
+		p := plan{errsBefore: []int{0, 0, 1, 1, 7}[r.Intn(5)], terminal: []string{"valid4", "valid6", "valid-ws", "garbage", "s4xx", "s5xx-garbage", "transport", "valid-ws-long", "valid6-expanded", "garbage-ip-prefix", "garbage-long"}[r.Intn(11)]}
 		p.ip = fmt.Sprintf("192.0.2.%d", 10+i)
 		if p.terminal == "valid6" {
 			p.ip = fmt.Sprintf("2001:db8::%d", 10+i)
+		}
+		if p.terminal == "valid6-expanded" || (p.terminal == "valid-ws-long" && r.Intn(2) == 0) {
+			// the fully expanded spelling (39 characters) of an IPv6 address
+			p.ip = fmt.Sprintf("2001:0db8:85a3:0000:0000:8a2e:0370:73%02x", 10+i)
+			if p.terminal == "valid6-expanded" {
+				p.terminal = "valid-ws-long"
+			}
 		}
 		var steps []providerStep
 		for k := 0; k < p.errsBefore; k++ {
